@@ -122,8 +122,45 @@ def work(k, q, lock, out_dir):
                 open(f"{out_dir}/survivors.jsonl", "a").write(json.dumps(rec) + "\n")
             print(mid, rec["status"], rel, line_no + 1, what, sorted(rec.get("alarms", {}).keys())[:6], flush=True)
 
+def recheck(path, n_lanes, base):
+    """re-run all twenty checks on the survivors recorded in <path> (their diffs), against the current machinery"""
+    recs = [json.loads(l) for l in open(path)]
+    q = queue.Queue()
+    for r in recs:
+        q.put(r)
+    lock = threading.Lock()
+    def w(k):
+        lane = L.setup(base + k)
+        repo = f"{lane}/repo"
+        while True:
+            try:
+                r = q.get_nowait()
+            except queue.Empty:
+                return
+            sh("git checkout -q -- .", cwd=repo)
+            open(f"{lane}/m.diff", "w").write(r["diff"])
+            rc, out = sh(f"git apply {lane}/m.diff", cwd=repo)
+            if rc != 0:
+                with lock: print(r["id"], "diff does not apply", flush=True)
+                continue
+            alarms = []
+            for i in range(1, 21):
+                c = f"C{i:02d}"
+                rc, o = L.check(lane, c)
+                if rc == 1:
+                    alarms.append(c)
+            sh("git checkout -q -- .", cwd=repo)
+            with lock:
+                print(r["id"], "STILL-SURVIVES" if not alarms else "now-killed-by " + ",".join(alarms), r["file"], r["line"], r["what"], flush=True)
+    ts = [threading.Thread(target=w, args=(k,)) for k in range(n_lanes)]
+    for t in ts: t.start()
+    for t in ts: t.join()
+
 def main():
     a = sys.argv[1:]
+    if a[:1] == ["--recheck"]:
+        recheck(a[1], int(a[2]) if len(a) > 2 else 4, int(a[3]) if len(a) > 3 else 30)
+        return
     n_lanes, count, seed, out_dir, files = 5, 100, 1, "/tmp/mutants", []
     while a:
         x = a.pop(0)
